@@ -205,6 +205,11 @@ pub fn eval_pattern(cfg: &Cfg, ast: &Node, flags: Flags, hays: &[Hay], known: &K
         return;
     }
     let pat = print::print(ast);
+    eval_pattern_text(cfg, ast, pat, flags, hays, known, st)
+}
+
+/// Same, with the pattern source given explicitly (patterns that come from the reference parser).
+pub fn eval_pattern_text(cfg: &Cfg, ast: &Node, pat: Vec<u32>, flags: Flags, hays: &[Hay], known: &Known, st: &mut Stats) {
     let re = match subject::compile(&pat, flags, false) {
         CompileOutcome::Ok(re) => re,
         CompileOutcome::Err(_) => {
@@ -702,7 +707,12 @@ pub fn hays_for(sp: &SweepProfile, thorough: bool, prop: Prop) -> Vec<Hay> {
 pub fn run(run: &mut Run, prop: Prop, profile_names: &[&str]) -> Stats {
     let thorough = run.thorough();
     let cfg = Cfg { pid: prop.id(), sig: shape, prop, fuel: if thorough { 2_000_000 } else { 300_000 }, ref_limit: 3_000_000, k_ratio: 256 };
-    let total = drive(run, prop.id(), profile_names, &|sp, th| hays_for(sp, th, prop), &|ast, f, hays, known, st| eval_pattern(&cfg, ast, f, hays, known, st));
+    let mut total = drive(run, prop.id(), profile_names, &|sp, th| hays_for(sp, th, prop), &|ast, f, hays, known, st| eval_pattern(&cfg, ast, f, hays, known, st));
+    if matches!(prop, Prop::C01 | Prop::C02 | Prop::C03 | Prop::C13) && std::env::var("VERIF_PROFILES").map(|v| v.is_empty() || v.contains("tokens")).unwrap_or(true) {
+        let n = if thorough { 5 } else { if prop == Prop::C01 { 4 } else { 3 } };
+        let t = drive_tokens(run, prop.id(), n, &|ast, pat, f, hays, known, st| eval_pattern_text(&cfg, ast, pat, f, hays, known, st));
+        total = total.merge(t);
+    }
     if total.get("undecided_fuel") > 0 && prop != Prop::C05 {
         run.caps.push(format!("{} searches cut by the fuel horizon (counted as undecided, see C05)", total.get("undecided_fuel")));
     }
@@ -786,4 +796,63 @@ pub fn drive(run: &mut Run, pid: &str, profile_names: &[&str], hays_fn: HaysFn, 
     }
     run.extra.push(("profiles".into(), J::Arr(per_profile)));
     total
+}
+
+/// Token-string patterns: every string over the token alphabet up to a length bound that the
+/// reference parser accepts is read by it, and the resulting AST is the reference for the search.
+/// This covers the subject parser's *reading* of escapes, octal forms, braces, class syntax.
+pub fn drive_tokens(run: &mut Run, pid: &str, max_len: usize, eval: &(dyn Fn(&Node, Vec<u32>, Flags, &[Hay], &Known, &mut Stats) + Sync)) -> Stats {
+    use crate::refparse;
+    let toks: Vec<u32> = crate::c07::TOKENS.chars().map(|c| c as u32).collect();
+    let total = crate::c08::total_strings(toks.len() as u64, max_len);
+    let mut hays = enumerate::all_hays(&enumerate::chars("abk1-0"), 2);
+    hays.extend(enumerate::all_hays(&enumerate::chars("a1\n"), 3).into_iter().filter(|h| h.cps.len() == 3));
+    hays.push(Hay::new(enumerate::chars("\u{1}a\u{8}u{")));
+    let chunk = 2048u64;
+    let nchunks = (total + chunk - 1) / chunk;
+    let known = &run.known;
+    let t0 = std::time::Instant::now();
+    let st = (0..nchunks)
+        .into_par_iter()
+        .fold(Stats::default, |mut st, ci| {
+            for idx in ci * chunk..((ci + 1) * chunk).min(total) {
+                let pat = crate::c08::token_string(&toks, idx);
+                for f in ["", "u", "v", "i", "ms"] {
+                    let fl = Flags::parse(f);
+                    st.add("patterns_generated", 1);
+                    let Ok(ast) = refparse::parse(&pat, fl) else {
+                        st.add("patterns_outside_language", 1);
+                        continue;
+                    };
+                    // known finding KF-legacy-u-brace: in legacy mode the subject reads \u{hex} as a
+                    // code point; where that reading differs, it is the reference for this pattern
+                    let mut ast = ast;
+                    if !fl.unicode_mode() {
+                        if let Ok(alt) = refparse::parse_compat(&pat, fl, refparse::Compat { legacy_u_brace: true }) {
+                            if alt != ast {
+                                let case = J::obj().set("pattern", J::s(&print::show(&pat))).set("flags", J::s(f)).set("compat", J::s("legacy-u-brace"));
+                                st.violation(known, pid, "known", pat.len(), case);
+                                ast = alt;
+                            }
+                        }
+                    }
+                    eval(&ast, pat.clone(), fl, &hays, known, &mut st);
+                }
+            }
+            st
+        })
+        .reduce(Stats::default, Stats::merge);
+    eprintln!(
+        "  {} token strings <= {}: strings={} evaluated={} cases={} violations={} known={} ({:.1}s)",
+        pid,
+        max_len,
+        total,
+        st.get("patterns_evaluated"),
+        st.get("evaluations"),
+        st.total_violations(),
+        st.known.values().map(|k| k.0).sum::<u64>(),
+        t0.elapsed().as_secs_f64()
+    );
+    run.extra.push(("token_strings".into(), J::obj().set("max_len", J::u(max_len as u64)).set("strings", J::u(total)).set("patterns_evaluated", J::u(st.get("patterns_evaluated"))).set("evaluations", J::u(st.get("evaluations"))).set("haystacks", J::u(hays.len() as u64))));
+    st
 }
